@@ -26,6 +26,9 @@ pub enum Case {
     ScalarMul { base: String, l: String, scalar: String, tag: String },
     GMul { scalar: String, tag: String },
     Table { row: usize, digit: usize },
+    /// consecutive scalar multiplications on one thread; each step = (base k, Z, negate with Point::neg first, scalar).
+    /// Every result is judged: related bases (same x and z, opposite y; same point, other Z) must not influence each other.
+    MulSeq { steps: Vec<(String, String, bool, String)> },
 }
 
 fn modulus(m: &str) -> BigUint {
@@ -312,6 +315,32 @@ pub fn eval(ctx: &Ctx, case: &Case) {
                 Guard::Panic(pn) => ctx.violation("g_mul", &format!("panic/{}/{}", panic_site(&pn), tag), pn, cj()),
             }
         }
+        Case::MulSeq { steps } => {
+            for (i, (bk, l, negate, sc)) in steps.iter().enumerate() {
+                let (bk, l, s) = (hb(bk), hb(l), hb(sc));
+                let (mut p, mut r) = rep_point(&bk, &l);
+                if *negate {
+                    p = p.neg();
+                    r = pr.curve.neg(&r);
+                }
+                let want = sm2::mul(&s, &r);
+                ctx.call();
+                let sl = to_limbs(&s);
+                match guard(|| p.scalar_mul(&sl)) {
+                    Guard::Done(q) if ref_point(&q) == want => {}
+                    Guard::Done(q) => {
+                        ctx.violation("Point::scalar_mul", &format!("wrong-multiple/in-sequence/step{}of{}", i + 1, steps.len()), format!("steps={:?} got={} want={}", steps, pt_str(&ref_point(&q)), pt_str(&want)), cj());
+                        return;
+                    }
+                    Guard::Panic(pn) => {
+                        ctx.violation("Point::scalar_mul", &format!("panic/{}/in-sequence", panic_site(&pn)), pn, cj());
+                        return;
+                    }
+                }
+            }
+            ctx.trace();
+            ctx.outcome("ok/scalar_mul-sequence");
+        }
         Case::Table { row, digit } => {
             // row r holds [d * 256^r]G for d = 1..=255 as (x, y) in Montgomery form
             let k = BigUint::from(*digit as u32) << (8 * *row);
@@ -395,7 +424,7 @@ pub fn run(ctx: &Arc<Ctx>) {
     refmodels::selftest::run(&["sm2"]).unwrap_or_else(|e| ctx.machinery_error(format!("reference self-test failed: {}", e)));
     let pr = sm2::params();
     let (p, n) = (pr.p.clone(), pr.n.clone());
-    ctx.set_rule("fields: operands = all 4-limb values with limbs in {0,1,2^32,2^63,2^64-1} below the modulus, values within 4 of it, 2^256-m, m/2, R, R^2, seeded; unary ops on all, binary ops on all x extreme (thorough: all x all); crafted Montgomery products landing on 0, 1, m-1. Raw u256/u512 helpers on all limb patterns. Group: [j]G for j in {1,2,3,5,n-1,n-2,seeded} x Z in {1,2,p-1,seeded} plus 3 encodings of infinity, all ordered pairs through point_add, all through dbl/neg/affine/validity/SEC1; off-curve triples; scalars {0,1,2,15,16,17,n-1, n+w for w<=300, 2^256-1, every v*16^i, every b*256^i, adjacent-byte sums, seeded} through g_mul / scalar_mul of 3 bases; all 32x255 table entries. Oracle: affine big-integer arithmetic.");
+    ctx.set_rule("fields: operands = all 4-limb values with limbs in {0,1,2^32,2^63,2^64-1} below the modulus, values within 4 of it, 2^256-m, m/2, R, R^2, seeded; unary ops on all, binary ops on all x extreme (thorough: all x all); crafted Montgomery products landing on 0, 1, m-1. Raw u256/u512 helpers on all limb patterns. Group: [j]G for j in {1,2,3,5,n-1,n-2,seeded} x Z in {1,2,p-1,seeded} plus 3 encodings of infinity, all ordered pairs through point_add, all through dbl/neg/affine/validity/SEC1; off-curve triples; scalars {0,1,2,15,16,17,n-1, n+w for w<=300, 2^256-1, every v*16^i, every b*256^i, adjacent-byte sums, seeded} through g_mul / scalar_mul of 3 bases; all 32x255 table entries; all sequences of <= 2 (thorough 3) scalar multiplications over related bases {B, -B, B re-represented, other point} x 2 scalars on one thread. Oracle: affine big-integer arithmetic.");
     let mut cases: Vec<Case> = Vec::new();
     let h = |x: &BigUint| hexbig(x);
     // ---- fields
@@ -512,6 +541,35 @@ pub fn run(ctx: &Arc<Ctx>) {
     for i in 0..31u32 {
         for (b1, b2) in [(1u32, 1u32), (255, 255), (1, 255), (128, 127), (0x5a, 0xa5)] {
             cases.push(Case::GMul { scalar: h(&((BigUint::from(b1) << (8 * i)) + (BigUint::from(b2) << (8 * (i + 1))))), tag: "adjacent-bytes".into() });
+        }
+    }
+    // multiplication sequences over related bases: B, -B (same x and z), B in another representation, another point
+    {
+        let b0 = (js[6].clone(), lambdas[3].clone());
+        let step_alpha: Vec<(String, String, bool, String)> = {
+            let mut v = Vec::new();
+            for (bk, bl, negate) in [(b0.0.clone(), b0.1.clone(), false), (b0.0.clone(), b0.1.clone(), true), (b0.0.clone(), lambdas[1].clone(), false), (js[2].clone(), b0.1.clone(), false)] {
+                for sc in [BigUint::from(3u32), &n - 2u32] {
+                    v.push((h(&bk), h(&bl), negate, h(&sc)));
+                }
+            }
+            v
+        };
+        let depth = ctx.tier.pick(2usize, 3);
+        let mut seqs: Vec<Vec<usize>> = vec![vec![]];
+        for _ in 0..depth {
+            let mut next = Vec::new();
+            for sq in &seqs {
+                for i in 0..step_alpha.len() {
+                    let mut t = sq.clone();
+                    t.push(i);
+                    next.push(t);
+                }
+            }
+            for sq in &next {
+                cases.push(Case::MulSeq { steps: sq.iter().map(|i| step_alpha[*i].clone()).collect() });
+            }
+            seqs = next;
         }
     }
     let mut ntab = 0;
